@@ -79,7 +79,9 @@ func frameBytes(f string, sid uint32, lastSid uint32) []byte {
 	panic("unknown frame " + f)
 }
 
-func headerFrame(f string, sid uint32, tag string, enc *h2raw.Enc) []byte {
+// ni: the literal fields of this connection use the never-indexed representation for every other field, pseudo-header fields
+// included (legal, and the same header list: the fingerprint is a function of the list, not of its HPACK representation)
+func headerFrame(f string, sid uint32, tag string, enc *h2raw.Enc, ni bool) []byte {
 	order := map[string]string{"H1": "masp", "H2": "mpas", "H3": "mspa"}[f]
 	m := map[byte]h2raw.HF{'m': {":method", "GET"}, 'a': {":authority", "vf.test"}, 's': {":scheme", "https"}, 'p': {":path", "/r"}}
 	var fs []h2raw.HF
@@ -90,6 +92,14 @@ func headerFrame(f string, sid uint32, tag string, enc *h2raw.Enc) []byte {
 	blk := h2raw.Block(fs)
 	if enc != nil { // indexed representations and a growing dynamic table, as real clients send them
 		blk = enc.Block(fs)
+	} else if ni {
+		k := int(sid / 2)
+		blk = h2raw.BlockRep(fs, func(i int) byte {
+			if (i+k)%2 == 0 || k%3 == 0 {
+				return 0x10
+			}
+			return 0x00
+		})
 	}
 	switch f {
 	case "H2":
@@ -158,7 +168,7 @@ func runPath(st *stack.Stack, p Path, out *Out, mu *sync.Mutex) {
 				// request HEADERS (block of H1) without END_STREAM and, right behind it, the trailer block that ends the stream
 				wire = trailerRequest(s.F, sid, tag, enc)
 			} else {
-				wire = headerFrame(s.F, sid, tag, enc)
+				wire = headerFrame(s.F, sid, tag, enc, p.ID%6 == 4)
 			}
 			if _, err := cl.Conn.Write(wire); err != nil {
 				fail("write: " + err.Error())
